@@ -537,7 +537,7 @@ Definition step_op_t (a : ann) (o : op) (s : st) : tres st :=
     dot s1 <- reset_for_rerun_t l s;
     dot s2 <- delete_hash_t l s1;
     set_sstate_t l SPending false s2
-  | OpValidatePending l => set_sstate_t l SPending false s
+  | OpValidatePending l => set_sstate_t l SPending true s       (* deferred since repo d760e3e (D36) *)
   | OpMarkStepPending l => mark_step_pending_t l s
   | OpDeleteDetached => delete_detached_t s
   | OpHold l => hold_t l s
